@@ -418,3 +418,20 @@ func p2pHeaderStore(v *rnode) (*goheaderstore.Store[*types.SignedHeader], error)
 	}
 	return goheaderstore.NewStore[*types.SignedHeader](kv, goheaderstore.WithStorePrefix("headerSync"))
 }
+
+// p2pDataStoreHeight returns the height of the P2P data store a stopped full node left on its disk (0 if empty).
+func p2pDataStoreHeight(v *rnode) uint64 {
+	var kv ds.Batching = v.sn.Disk.PeekDS()
+	if !v.light {
+		kv = ktds.Wrap(kv, ktds.PrefixTransform{Prefix: ds.NewKey("0")})
+	}
+	st, err := goheaderstore.NewStore[*types.Data](kv, goheaderstore.WithStorePrefix("dataSync"))
+	if err != nil {
+		return 0
+	}
+	head, err := st.Head(context.Background())
+	if err != nil {
+		return 0
+	}
+	return head.Height()
+}
